@@ -607,6 +607,7 @@ fn run_loco(case: &C20Case, cx: &mut Ctx) {
                 units: vec![],
                 pdct: 0,
                 init_time: 0.0,
+                hybrids: 0,
             };
             let link = LinkSpec { length: 30000.0, elevs: vec![(0.0, 0.0), (30000.0, 0.0)], headings: vec![], cats: vec![], single: true, sets: vec![SetSpec { train_type: 1, head_end: false, params: vec![], limits: vec![(0.0, 30000.0, 20.0)] }] };
             let net = build_chain(&[link]);
